@@ -257,7 +257,7 @@ def run_seq(ctx, res, thorough):
     exe = build_seq()
     model = C.build_model(ID)
     rng = ctx.rng
-    ncases = 4000 if thorough else 500
+    ncases = 8000 if thorough else 1500
     cases = corpus()
     kinds = {"corpus": len(cases), "random": ncases}
     for i in range(ncases):
